@@ -109,12 +109,17 @@ impl Property for C17Prop {
             i += n;
         }
         let files: serde_json::Map<String, Json> = case::import_files(&program).into_iter().map(|(n, t)| (n, json!(t))).collect();
-        Some(json!({"kind": "repl", "inputs": inputs, "files": files}))
+        // one session in six also goes through the REPL executable itself
+        let binary = tape.chance(1, 6);
+        Some(json!({"kind": "repl", "inputs": inputs, "files": files, "binary": binary}))
     }
 
     fn check_case(&self, case: &Json, stats: &mut Stats) -> Verdict {
         match case["kind"].as_str().unwrap_or("") {
-            "repl" => check_repl(case, stats),
+            "repl" => match check_repl(case, stats) {
+                Verdict::Pass if case["binary"].as_bool().unwrap_or(false) => check_repl_executable(case, stats),
+                other => other,
+            },
             "call" => check_call(case, stats),
             "repeat" => check_repeat(case, stats),
             // a fixed REPL history that keeps a recorded finding visible under a signature of its own
@@ -292,6 +297,128 @@ fn check_repl(case: &Json, stats: &mut Stats) -> Verdict {
     Verdict::Pass
 }
 
+/// The REPL executable itself (src/main.rs, built by ./check from /repo's working tree, dev profile,
+/// hooks off): the session's inputs, one per line, each followed by a marker line. What the
+/// executable answers on stdout is what the embedding route (parse against one interpreter,
+/// exec_unscoped, `{:?}` of the result) gives for that input: the rendering and a line end for a
+/// value, nothing for an input that is rejected or fails (the message goes to stderr), and the
+/// session goes on after a failure. Renderings in which only the order of struct fields or union
+/// members may differ are compared as multisets of characters.
+fn check_repl_executable(case: &Json, stats: &mut Stats) -> Verdict {
+    use std::io::{Read, Write};
+    let Some(bin) = std::env::var("VERIF_SIMPLESL_BIN").ok().filter(|b| !b.is_empty() && std::path::Path::new(b).exists()) else {
+        stats.label("REPL executable not built: route skipped");
+        return Verdict::Pass;
+    };
+    let inputs = case["inputs"].as_array().cloned().unwrap_or_default();
+    let texts: Vec<String> = inputs.iter().map(|i| case::materialise(i["text"].as_str().unwrap_or(""), case)).collect();
+    if texts.iter().any(|t| t.contains('\n') || t.contains("print") || t.contains("getline") || t.contains("std.fs") || t.contains("#marker")) || texts.is_empty() {
+        stats.label("REPL executable: session not expressible as lines (skipped)");
+        return Verdict::Pass;
+    }
+    // the embedding route against the whole of std (what the executable's interpreter holds)
+    let mut interp = simplesl::Interpreter::with_stdlib();
+    let mut expected: Vec<Option<String>> = vec![];
+    for text in &texts {
+        run::default_budget();
+        stats.eval();
+        let out = match run::parse_guarded(&interp, text) {
+            Ok(Ok(code)) => run::exec_unscoped_guarded(&code, &mut interp),
+            Ok(Err(kind)) => Outcome::Rejected(kind),
+            Err(o) => o,
+        };
+        match out {
+            Outcome::Value(v) => match run::guarded(|| format!("{v:?}")) {
+                Ok(r) if !r.contains('\n') => expected.push(Some(r)),
+                _ => return Verdict::Pass,
+            },
+            Outcome::Rejected(_) | Outcome::ExecError(_) => expected.push(None),
+            Outcome::Aborted(_) => return Verdict::Pass,
+            // a panic of the library route is the business of the comparison above and of C02
+            _ => return Verdict::Pass,
+        }
+    }
+    let mut input = String::new();
+    for (k, t) in texts.iter().enumerate() {
+        input += &format!("{t}\n\"#marker{k}#\"\n");
+    }
+    let Ok(mut child) = std::process::Command::new(&bin)
+        .stdin(std::process::Stdio::piped())
+        .stdout(std::process::Stdio::piped())
+        .stderr(std::process::Stdio::null())
+        .spawn()
+    else {
+        return Verdict::Inconclusive("REPL executable did not start");
+    };
+    let mut stdin = child.stdin.take().expect("stdin");
+    let mut stdout = child.stdout.take().expect("stdout");
+    let writer = std::thread::spawn(move || {
+        let _ = stdin.write_all(input.as_bytes());
+    });
+    let reader = std::thread::spawn(move || {
+        let mut bytes = vec![];
+        let _ = stdout.read_to_end(&mut bytes);
+        bytes
+    });
+    // the hooks (fuel) are off in the executable: a session that does not end within two minutes
+    // although the library route ended within its budget is left undecided, never reported
+    let started = std::time::Instant::now();
+    let ended = loop {
+        match child.try_wait() {
+            Ok(Some(_)) => break true,
+            Ok(None) if started.elapsed().as_secs() < 120 => std::thread::sleep(std::time::Duration::from_millis(2)),
+            _ => break false,
+        }
+    };
+    if !ended {
+        let _ = child.kill();
+        let _ = child.wait();
+        let _ = writer.join();
+        let _ = reader.join();
+        return Verdict::Inconclusive("REPL executable did not finish within two minutes");
+    }
+    let _ = writer.join();
+    let bytes = reader.join().unwrap_or_default();
+    let out = String::from_utf8_lossy(&bytes).to_string();
+    let mut rest = out.as_str();
+    let sorted = |s: &str| {
+        let mut c: Vec<char> = s.chars().collect();
+        c.sort_unstable();
+        c
+    };
+    stats.label("REPL executable: sessions answered");
+    for (k, (text, want)) in texts.iter().zip(&expected).enumerate() {
+        let marker = format!("\"#marker{k}#\"\n");
+        let history = || texts[..k].join("\n     ");
+        let Some(at) = rest.find(&marker) else {
+            return fail("C17:repl-executable:stopped", format!("the REPL executable stopped answering at input {k} `{text}` of the session\n     {}", history()));
+        };
+        let answer = &rest[..at];
+        let same = match want {
+            None => answer.is_empty(),
+            Some(r) if r.contains("struct{") || r.contains('|') => sorted(answer) == sorted(&format!("{r}\n")),
+            Some(r) => answer == format!("{r}\n"),
+        };
+        if !same {
+            let wanted = match want {
+                Some(r) => format!("{r:?} and a line end"),
+                None => "nothing on stdout (the input is rejected or fails)".to_string(),
+            };
+            return fail(
+                "C17:repl-executable:answer",
+                format!("the REPL executable answers input {k} `{text}` with {answer:?}; the embedding route (one interpreter, parse, exec_unscoped, {{:?}}) gives {wanted}; earlier inputs:\n     {}", history()),
+            );
+        }
+        rest = &rest[at + marker.len()..];
+    }
+    if !rest.is_empty() {
+        return fail("C17:repl-executable:answer", format!("the REPL executable wrote {rest:?} after the last input of the session\n     {}", texts.join("\n     ")));
+    }
+    stats.nontrivial(&format!("repl-executable {}", texts.join(" ")));
+    stats.sample(2, || json!({"repl_executable_session": texts, "answers": expected}));
+    Verdict::Pass
+}
+
 fn check_call(case: &Json, stats: &mut Stats) -> Verdict {
     let program = case["program"].as_str().unwrap_or("");
     let mut arg_texts: Vec<String> = case["args"].as_array().into_iter().flatten().filter_map(|a| a.as_str().map(str::to_string)).collect();
@@ -447,7 +574,7 @@ pub fn run(session: &Session) -> i32 {
                 let declares: Vec<String> = if st.contains(" := ") && !st.starts_with('(') && !st.starts_with("match") && !st.starts_with("if") { vec![st.split(" :=").next().unwrap().to_string()] } else { vec![] };
                 inputs.push(json!({"declares": declares, "text": format!("{st};")}));
             }
-            cases.push(json!({"kind": "repl", "files": {}, "inputs": inputs}));
+            cases.push(json!({"kind": "repl", "files": {}, "inputs": inputs, "binary": true}));
         }
     }
     // values whose declared types are unions: what a later input computes from them does not depend on
@@ -469,7 +596,7 @@ pub fn run(session: &Session) -> i32 {
                 json!({"declares": names, "text": t})
             })
             .collect();
-        cases.push(json!({"kind": "repl", "files": {}, "inputs": items}));
+        cases.push(json!({"kind": "repl", "files": {}, "inputs": items, "binary": true}));
     }
     // a construct that binds a name locally to a run-time value and uses it, with the same name declared
     // outside as a constant, as a run-time value, as a value of another type or not at all: one statement
@@ -511,13 +638,13 @@ pub fn run(session: &Session) -> i32 {
                 for (text, names) in body.iter().filter(|(t, _)| !t.is_empty()) {
                     inputs.push(json!({"declares": names, "text": text}));
                 }
-                cases.push(json!({"kind": "repl", "files": {}, "inputs": inputs}));
+                cases.push(json!({"kind": "repl", "files": {}, "inputs": inputs, "binary": true}));
                 // the outer declaration and the construct in one input
                 let mut inputs: Vec<Json> = prelude.to_vec();
                 let names: Vec<&str> = onames.iter().chain(cnames.iter()).copied().collect();
                 inputs.push(json!({"declares": names, "text": format!("{outer} {construct}")}));
                 inputs.push(json!({"declares": [], "text": last}));
-                cases.push(json!({"kind": "repl", "files": {}, "inputs": inputs}));
+                cases.push(json!({"kind": "repl", "files": {}, "inputs": inputs, "binary": true}));
             }
         }
     }
